@@ -140,7 +140,9 @@ def _scenarios(scratch, quick, r):
         sc.start("P1", hold=350 + 100 * k)
         inside = sc.wait_logged("P1", "worked")
         sc.start("P2", hold=2, signals=True)
-        time.sleep(0.12)
+        # (the handler is installed before `open-called` is logged: a signal sent earlier would end the process)
+        sc.wait_logged("P2", "open-called")
+        time.sleep(0.08)
         import signal
         for _ in range(2 + k):
             if sc.procs["P2"].poll() is None:
